@@ -298,6 +298,7 @@ func TestC11(t *testing.T) {
 		Level: "exploration",
 		Rule: "strings of 0-12 runes over an alphabet biased to backslash, quote, the letters n t r f and the four escapable control characters (10% any printable rune); " +
 			"each case checks ParseZqlString(quote(s))==s and one query (= != in 'not in' contains 'not contains' on a string field; anyOf = / anyOf in / allOf != / anyOf contains on a string set) over rows holding s, near-misses of s (incl. strings s is a prefix of) and null, " +
+			"Every filter is also parsed with ast.EnableQueryDebug on and must give the same answer. " +
 			"via in-memory symbols and via a bolt store. Non-trivial: s has a backslash directly followed by one of n t r f \" \\, or >= 2 characters that need escaping. Distinct by hash of the case JSON.",
 		Assumptions: []string{
 			"control characters other than LF TAB CR FF have no literal form and are outside the property's domain",
